@@ -83,6 +83,25 @@ def gen_cases(rng, tier):
     return engine_cases.gen(rng, tier)
 
 
+def stagest_variants(cases, every=1):
+    """ORACLE-ONLY siblings of `cases`: the same plans/injections with devices whose stage()/unstage() return a Status
+    (ophyd-async style) instead of a list - the branch of RunEngine._stage/_unstage after `isinstance(ret, Status)`.
+    Only cases whose plans stage or unstage something are taken (every `every`-th of them)."""
+    out = []
+    n = 0
+    for c in cases:
+        if '"stage"' not in json.dumps(c.get("plan", c.get("calls"))) and '"unstage"' not in json.dumps(c.get("plan", c.get("calls"))):
+            continue
+        n += 1
+        if n % every:
+            continue
+        d = json.loads(json.dumps(c))
+        d["devs"] = [sorted(set(fl) | {"stagest"}) if "stage" in fl else list(fl) for fl in d.get("devs", [["stage"], [], ["pause"]])]
+        d["tag"] = (d.get("tag", "") + " stagest").strip()
+        out.append(d)
+    return out
+
+
 def impl_batch(cases):
     """Run the implementation on the case list; results are cached per case under the hash of the
     sources (/repo/src/bluesky + the drivers), so engine properties with overlapping corpora share runs."""
